@@ -5,7 +5,8 @@
 (* hook events of the run, paths replaced by their index in inp.files:                                     *)
 (*   paths   -> BySize   (size grouping + same-path removal)                                               *)
 (*   prefix  -> End of the prefix stage        suffix -> End of the suffix stage                           *)
-(*   done    -> End of the contents stage, or FinalFilter with --skip-content-hash                         *)
+(*   done    -> End of the contents stage (of the single transform stage with --transform), or FinalFilter  *)
+(*              with --skip-content-hash                                                                    *)
 (* Begin and the hashing tasks are silent steps (the order of tasks cannot influence End, see MC_Grouping). *)
 (* A line is consumed only if the candidate sets the code reports equal the ones the specification          *)
 (* computes, so an accepted run is a behaviour of Grouping.tla stage by stage; the invariants of the spec  *)
@@ -18,18 +19,20 @@ R == Rec[l]
 IsEv(e) == l <= Len(Rec) /\ Rec[l].ev = e /\ l' = l + 1
 Obs == {ToSet(R.groups[i]) : i \in 1..Len(R.groups)}
 Sets(G) == {g.files : g \in G}
-Dummy == [files |-> <<>>, cfg |-> [kind |-> "over", rf |-> 1, isolate |-> FALSE, matchLinks |-> FALSE, skipContent |-> FALSE, P |-> 1, T |-> 1], bad |-> {}]
+Dummy == [files |-> <<>>, cfg |-> [kind |-> "over", rf |-> 1, isolate |-> FALSE, matchLinks |-> FALSE, skipContent |-> FALSE, transform |-> FALSE, P |-> 1, T |-> 1], bad |-> {}]
 
 TInit == TLCSet(1, 1) /\ TLCSet(2, 0) /\ l = 1 /\ inp = Dummy /\ stage = "done" /\ phase = "begin" /\ groups = {} /\ todo = {} /\ got = {} /\ pass = {} /\ failed = {}
 TReset == /\ IsEv("Reset")
           /\ inp' = [files |-> R.inp.files, cfg |-> R.inp.cfg, bad |-> {}]
-          /\ stage' = "size" /\ phase' = "begin" /\ groups' = {} /\ todo' = {} /\ got' = {} /\ pass' = {} /\ failed' = {}
+          /\ stage' = (IF R.inp.cfg.transform THEN "transform" ELSE "size") /\ phase' = "begin"
+          /\ groups' = (IF R.inp.cfg.transform THEN {[len |-> 0, hash |-> {}, files |-> 1..Len(R.inp.files)]} ELSE {})
+          /\ todo' = {} /\ got' = {} /\ pass' = {} /\ failed' = {}
 TPaths == IsEv("StageDone") /\ R.stage = "paths" /\ BySize /\ Sets(groups') = Obs
 TBegin == l <= Len(Rec) /\ Begin /\ UNCHANGED l
 TTask == l <= Len(Rec) /\ phase = "tasks" /\ todo # {} /\ Task(CHOOSE r \in todo : TRUE) /\ UNCHANGED l
 TEnd == /\ IsEv("StageDone")
         /\ \/ R.stage = stage /\ stage \in {"prefix", "suffix"}
-           \/ R.stage = "done" /\ stage = "contents"
+           \/ R.stage = "done" /\ stage \in {"contents", "transform"}
         /\ End /\ Sets(groups') = Obs
 TFilter == IsEv("StageDone") /\ R.stage = "done" /\ FinalFilter /\ Sets(groups') = Obs
 TNext == TReset \/ TPaths \/ TBegin \/ TTask \/ TEnd \/ TFilter
